@@ -13,6 +13,7 @@ import (
 	"fmt"
 	"os"
 	"strconv"
+	"sync"
 	"time"
 
 	"verifharness/proto"
@@ -46,17 +47,29 @@ func call(h Handler, args []string) (r reply) {
 // stdout of the protocol; set by Main
 var stdout *bufio.Writer
 
+// exactly one writer ends a request as `timeout`: the runner's own timer or an op calling TimeoutNow
+var timeoutOnce sync.Once
+
+func timeoutExit(fields []string) {
+	timeoutOnce.Do(func() {
+		if stdout != nil {
+			fmt.Fprintln(stdout, proto.Line(append([]string{"timeout"}, fields...)...))
+			stdout.Flush()
+		}
+		os.Exit(3)
+	})
+	select {} // the other writer is exiting the process
+}
+
 // TimeoutNow lets an op that has established, with a deadline of its own, that the library call it is
 // waiting for will never return, end the request exactly as the runner's own timeout does: the reply
-// `timeout` is written and flushed and the process exits with status 3 (the goroutines stuck in the
-// library cannot be reclaimed; the check restarts the harness on the remaining requests). It does not
-// return. Only to be called from the goroutine that runs the op.
-func TimeoutNow() {
-	if stdout != nil {
-		fmt.Fprintln(stdout, proto.Line("timeout"))
-		stdout.Flush()
-	}
-	os.Exit(3)
+// `timeout` (followed by the given detail fields: the check and the judges look at the first field only) is
+// written and flushed and the process exits with status 3 (the goroutines stuck in the library cannot be
+// reclaimed; the check restarts the harness on the remaining requests). It does not return; deferred calls
+// of the op do NOT run, so the op removes its temporary files before calling it. Only to be called from
+// the goroutine that runs the op.
+func TimeoutNow(fields ...string) {
+	timeoutExit(fields)
 }
 
 func Main() {
@@ -99,9 +112,7 @@ func Main() {
 				out.Flush()
 			}
 		case <-time.After(timeout):
-			fmt.Fprintln(out, proto.Line("timeout"))
-			out.Flush()
-			os.Exit(3)
+			timeoutExit(nil)
 		}
 		if err != nil {
 			break
